@@ -42,6 +42,10 @@ def leaf_prog(leaf, q):
         "bool_crit": [["from", U], ["select", [k(ux)]], ["where", ["cmp", "=", uy, ["raw", False]]]],
         "array": [["from", U], ["select", [k(["array", [["raw", 1], ["raw", 2]]])]]],
         "interval": [["from", U], ["select", [k(["arith", "+", ux, ["interval", {"days": 1, "hours": 2}]])]]],
+        # constants whose text the MySQL builder's own wrapper produces (select list) next to the same constants in criteria
+        "time_const": [["from", U], ["select", [k(ux), ["raw", ["$time", "23:59:59.123456"]]]], ["where", ["cmp", "=", uy, ["raw", ["$time", "01:02:03.000004"]]]]],
+        "jsondict_unsorted": [["from", U], ["select", [["raw", ["$dict", [["zeta", 1], ["alpha", 2], ["Beta", "x"], ["mid", None]]]], k(ux)]],
+                              ["where", ["cmp", "=", uy, ["raw", 5]]]],
         "interval_zero": [["from", U], ["select", [k(["arith", "+", ux, ["interval", {"days": 0}]]), ["arith", "-", uy, ["interval", {}]]]]],
         "interval_kw": [["from", U], ["select", [k(["arith", "+", ux, ["interval", {"days": 1, "hours": 2, "dialect": "MYSQL"}]]),
                                                  ["arith", "-", uy, ["interval", {"hours": 36, "dialect": "POSTGRESQL"}]]]]],
@@ -91,8 +95,8 @@ def _contrast(d):
     return "generic" if d == "mysql" else "mysql"
 
 
-NEUTRAL = {"ident", "ident_backtick", "value", "value2", "backslash", "inlist5", "json_esc", "json", "jsondict", "jsondict_set", "orderalias", "setop_orderalias"}
-LEAVES = ["ident", "ident_backtick", "interval_reflected", "groupalias_other", "value", "value2", "backslash", "inlist5", "bool", "bool_crit", "array", "interval", "interval_zero", "interval_kw", "json", "json_esc", "jsondict", "jsondict_set", "groupalias", "orderalias",
+NEUTRAL = {"time_const", "jsondict_unsorted", "ident", "ident_backtick", "value", "value2", "backslash", "inlist5", "json_esc", "json", "jsondict", "jsondict_set", "orderalias", "setop_orderalias"}
+LEAVES = ["time_const", "jsondict_unsorted", "ident", "ident_backtick", "interval_reflected", "groupalias_other", "value", "value2", "backslash", "inlist5", "bool", "bool_crit", "array", "interval", "interval_zero", "interval_kw", "json", "json_esc", "jsondict", "jsondict_set", "groupalias", "orderalias",
           "setop_orderalias", "limit"]
 
 
@@ -300,6 +304,13 @@ def run_ddl(case, res):
     else:
         o = Q.drop_table(Table("tbl")).if_exists()
     res.nontrivial = 1
+    # statements of the same kinds started through the other dialect classes in the meantime: this one keeps its dialect
+    for name2, Q2 in sorted(fp.QCLS.items(), key=lambda kv: kv[0] == d):
+        if name2 != d:
+            Q2.create_table(Table("zz_else")).columns("a")
+            Q2.create_table(Table("zz_else2")).as_select(Q2.from_(Table("src")).select("c1"))
+            Q2.drop_table(Table("zz_else"))
+            Q2.from_(Table("zz_else")).select("a")
     for how in ("str", "get_sql_default"):
         try:
             sql = str(o) if how == "str" else (o.get_sql(None) if kind.startswith("create") else o.get_sql())
